@@ -47,7 +47,9 @@ def make_specs(ctx: Ctx, n):
         targets = rng.sample(pool, min(k, len(pool)))
         target = "solve_and_simulate" if i % 2 else "simulate"
         plan = [{"op": "simulate", "target": target, "init": init, "seed": rng.randrange(10**6), "vsrc": "own", "targets": targets}]
-        specs.append(mk_spec(len(specs), m, ["c13"], plan, label=label))
+        # the content of the value/choice columns is C02's subject; every second case evaluates those clauses too, so that
+        # a frame whose columns are complete but filled from the wrong source is seen here as well
+        specs.append(mk_spec(len(specs), m, ["c13", "c02"] if i % 2 == 0 else ["c13"], plan, label=label))
         if i % 4 == 0 and len(specs) % 4 != 0:
             # the twin runs right after its sibling in the same driver process (chunks of 4 consecutive cases)
             specs.append(mk_spec(len(specs), gen.twin(rng, m), ["c13"], plan, label=label + "; twin (same names, other bodies)"))
